@@ -23,7 +23,7 @@ import numpy as np
 from harness import common, gen
 from harness.props.c06 import lean_unitary, phase_close
 
-MODULES = ['CirqVerif.Props.C07', 'CirqVerif.Props.C06']
+MODULES = ['CirqVerif.Props.C07', 'CirqVerif.Props.C07Timesteps', 'CirqVerif.Props.C06']
 
 
 # ------------------------------------------------------------------------------ routing
@@ -53,6 +53,71 @@ def random_graph(cirq, nx, rng):
             a, b = rng.sample(nodes, 2)
             g.add_edge(a, b)
     return g
+
+
+def check_timesteps(ctx, cirq, n):
+    """RouteCQC's factoring of a circuit into timesteps (two-qubit skeleton + one-qubit operations per timestep) against the Lean model
+    (Model/C07Timesteps; Props/C07Timesteps proves it respects every qubit and key dependency): both lists compared exactly"""
+    rng = ctx.substream('timesteps')
+    reqs, meta = [], []
+    for it in range(n):
+        qs = cirq.LineQubit.range(rng.randint(2, 4))
+        ops, desc, nk = [], [], 0
+        for k in range(rng.randint(1, 10)):
+            r = rng.random()
+            ident = k + 1
+            if r < 0.35 and len(qs) >= 2:
+                a, b = rng.sample(list(qs), 2)
+                if nk and rng.random() < 0.2:
+                    key = rng.randrange(nk)
+                    op = cirq.CZ(a, b).with_classical_controls(f'k{key}')
+                    desc.append({'id': ident, 'q': [a.x, b.x], 'm': [], 'c': [key]})
+                elif rng.random() < 0.15:
+                    op = cirq.measure(a, b, key=f'k{nk}')
+                    desc.append({'id': ident, 'q': [a.x, b.x], 'm': [nk], 'c': []})
+                    nk += 1
+                else:
+                    op = rng.choice([cirq.CZ, cirq.CNOT, cirq.ISWAP ** 0.5])(a, b)
+                    desc.append({'id': ident, 'q': [a.x, b.x], 'm': [], 'c': []})
+            else:
+                q = rng.choice(qs)
+                if r < 0.55 or (r < 0.75 and nk == 0):
+                    op = cirq.measure(q, key=f'k{nk}')
+                    desc.append({'id': ident, 'q': [q.x], 'm': [nk], 'c': []})
+                    nk += 1
+                elif r < 0.75:
+                    key = rng.randrange(nk)
+                    op = cirq.X(q).with_classical_controls(f'k{key}')
+                    desc.append({'id': ident, 'q': [q.x], 'm': [], 'c': [key]})
+                else:
+                    op = rng.choice([cirq.H, cirq.T, cirq.X ** 0.5])(q)
+                    desc.append({'id': ident, 'q': [q.x], 'm': [], 'c': []})
+            ops.append(op.with_tags(('id', ident)))
+        try:
+            circuit = cirq.Circuit(ops)
+        except ValueError:
+            continue
+        # the model reads the operations moment by moment, in the order the implementation iterates them
+        order = [[t[1] for t in o.tags if isinstance(t, tuple)][0] for m in circuit for o in m]
+        by_id = {d['id']: d for d in desc}
+        reqs.append({'p': 'C07', 'op': 'timesteps', 'ops': [by_id[i] for i in order]})
+        meta.append(circuit)
+    for circuit, want in zip(meta, ctx.driver.ask(reqs)):
+        ctx.count('check', 'timesteps')
+        ctx.case(['timesteps', repr(circuit)], True)
+        try:
+            two, single = cirq.RouteCQC._get_one_and_two_qubit_ops_as_timesteps(circuit)
+        except ValueError as e:
+            ctx.count('route_rejected', str(e)[:50])
+            continue
+        ids = lambda l: [[[t[1] for t in o.tags if isinstance(t, tuple)][0] for o in m] for m in l]
+        got = {'two': ids(two), 'single': ids(single)}
+        norm = lambda d: {'two': [sorted(m) for m in d['two']], 'single': [list(m) for m in d['single']]}
+        # (trailing empty timesteps carry nothing)
+        strip = lambda d: {k: v[: max([i + 1 for i, m in enumerate(d['two']) if m] + [i + 1 for i, m in enumerate(d['single']) if m] + [0])] for k, v in d.items()}
+        if strip(norm(got)) != strip(norm(want)):
+            ctx.report_witness('route:timesteps', 'the timestep factoring of the circuit differs from the model (an operation in another timestep, or one-qubit operations in another order)',
+                               {'lines': [{'circuit': repr(circuit)}], 'impl_out': [got], 'spec_out': [want], 'theorem_or_correspondence': 'Model.C07.runTS (C07_timesteps_respect_dependencies)'})
 
 
 def check_routing(ctx, cirq, nx, n):
@@ -486,6 +551,7 @@ def run(ctx: common.Run):
         ctx.report_unproved('lean-build', f'{failing}', {'theorem_or_correspondence': failing})
         return
     n = 40 if ctx.tier == 'quick' else 600
+    check_timesteps(ctx, cirq, 150 if ctx.tier == 'quick' else 3000)
     check_routing(ctx, cirq, nx, n)
     check_gatesets(ctx, cirq, n * 2)
     check_devices(ctx, cirq, n * 3)
